@@ -58,6 +58,8 @@ def forms(pid, rng):
         out.append((b"SSH-2.00-x\r\n", set()))
         out.append((b"SSH-2.0.1-x\r\n", set()))
         out.append((b"SSH-1.995-y z\r\n", set()))
+        for _ in range(6):
+            out.append((sshghost.gen_banner(rng), set()))        # the full grammar: long strings, length boundaries, lone CR / LF bytes
     elif pid == GHOST:
         out.append((b"Gh0st" + rb(8), set(range(5, 13))))
     elif pid == STUN:
